@@ -74,7 +74,7 @@ T = {
  "C18": ("PARTIAL (only the external solver's optimality is assumed). Lean theorems: the integer programmes SopModeler / EsopModeler build are modelled constraint by constraint (Model/Mip.lean) and proved sound and complete for the cover problem - "
          "every feasible point decodes, by the rule solve() applies, to an OR form by implicants / XOR form of every output whose documented cost is at most the objective value; every such form over the candidates is a feasible point "
          "whose objective value is exactly its cost (the redundant ESOP constraints exclude nothing) - hence an optimal solution denotes the functions exactly and has minimum documented cost among ALL two-level forms over the variables (sop_mip_spec, sop_mip_value, esop_mip_spec, sop_mip_minimal, esop_mip_minimal; continuous variables range over the rationals); "
-         "candidate sets and the executable exact optimum as before. Tie: hook verif_last_ilp dumps the programme good_lp holds when solve() is called; it is compared constraint by constraint with the model's programme; "
+         "the solver is asked to minimise with the default solver and no option but the thread count (C18Solver.solver_configuration, on Gen/Solver.lean regenerated from mip.rs on every run); candidate sets and the executable exact optimum as before. Tie: hook verif_last_ilp dumps the programme good_lp holds when solve() is called; it is compared constraint by constraint with the model's programme; "
          "the real optimizers (feature optim-mip, HiGHS, built offline) are run on all function lists the property names and compared on exactness and on cost against independent exact optima (one output n <= 3, pairs n <= 2, up to three outputs n = 3).",
          "Trust: as C01 plus HiGHS returning an optimal solution of the programme it is given, good_lp passing it on unchanged, floating-point thresholds, the Debug rendering of good_lp parsed by the harness.",
          "Lean 4 proof (ILP model sound+complete for the cover problem, candidates, cost) + ILP dump vs model + exact optima vs real solver", "5 (C18), 9"),
